@@ -357,6 +357,20 @@ def span_templates(n: int = 4):
     return sorted(out, key=lambda s: (len(s), s))
 
 
+# ---- loop-straddling family: a for-loop body whose LAST fragment starts an expression that is
+# continued by the FIRST fragment of the next iteration (a parse node that spans two iterations and
+# whose later children have EARLIER source positions).
+def loop_templates():
+    frags = [" + a", ", b", " AS c", " * 2", " {{ x }}"]
+    out = set()
+    for k in (2, 3):
+        for body in itertools.product(frags, repeat=k):
+            for pre in ("SELECT 1", "SELECT a"):
+                for suf in ("", " FROM t"):
+                    out.add(pre + "{% for x in xs %}" + "".join(body) + "{% endfor %}" + suf)
+    return sorted(out, key=lambda s: (len(s), s))
+
+
 # ---- nested family (depth 2): an if / elif / for nested inside the body of an outer if / for,
 # optionally followed by more conditional code -- the shape that yields variants whose path skips
 # a nested tag.
